@@ -33,8 +33,11 @@ theorem graph_fields_are_exactly_the_inGraph_carriers :
         fieldCarrier r.msg r.field == some c) = true) := by
   decide +kernel
 
-/-- **Nothing is lost silently**: every field survives `N = ser ∘ de` on the probe, or is on the list of known
-losses (finding C15-SPARSE).  A field newly dropped by the serde breaks this theorem. -/
+/-- **No field is dropped wholesale without being listed**: every field survives `N = ser ∘ de` *on the probe* — ONE
+populated sample per field, on one base model at `onnx.IR_VERSION` — or is on the list of known losses (finding
+C15-SPARSE).  A field the serde stops carrying altogether breaks this theorem; a loss that depends on the field's
+content, on other fields or on `ir_version` (e.g. `configuration` below IR 11) is invisible to it — that is stream 1's
+business (validated, not proved). -/
 theorem every_field_survives_serde_or_is_a_known_loss :
     ∀ r ∈ rows, r.status = "carried" ∨ (r.msg, r.field) ∈ knownLoss := by
   decide +kernel
